@@ -143,6 +143,10 @@ def run(run):
                         direct |= E.lv(e['l'], fn)
                 if ('core', 'registry', 'active') in direct or (fn.tkey == 'ffsm2::detail::Registry' and ('this', 'active') in direct):
                     ok = tk_short(fn) in {('C_', 'deepEnter'), ('C_', 'deepExit'), ('C_', 'deepChangeToRequested'), ('Registry', 'clear')}
+                    if not ok and fn.tkey == 'ffsm2::detail::Registry' and (fn.kind == 'ctor' or fn.m == 'operator='):
+                        # the registry's own constructors / assignment initialise or copy a whole registry object: not a change of a machine's
+                        # activity state (that copies are complete and leave their source alone is C17.b / C01.g)
+                        ok = all(p == ('this', 'active') or p == ('this', 'requested') for p in direct)
                     run.ob('C01.b', '%s is an expected writer of registry.active' % fn.short, ok, where=fn.pat,
                            key='%s writes registry.active' % fn.short)
             run.guard('activation pairing', activation_pairing, run, F, E)
